@@ -271,6 +271,5 @@ theorem step_loopish (P : Prog) (c : Cfg) (ins : Instr) (rest : List Instr) (hc 
       refine loopish_suf (SFrame.trans ?_ (h.1.trans ((SFrame.enqueue _ _).trans (by sframe)))) ?_
       · sframe
       · simp only [h.2]; simp
-  all_goals (trace_state; sorry)
 
 end Simpleline
